@@ -557,7 +557,7 @@ class Check:
             "harness_problems": self.harness_problems[:10],
             "exhaustive": False,
         }
-        for k in ("sweep_pairwise", "sweep_fault_sites", "sweep_all_paths"):
+        for k in ("sweep_pairwise", "sweep_fault_sites", "sweep_all_paths", "sweep_detector_abort"):
             if k in st:
                 cov[k] = st[k]
         if extra_cov:
@@ -676,9 +676,11 @@ def run_c14(chk: Check) -> None:
             chk.run_batch(specs, timeout)
             i += len(specs)
             log(f"[c14] faulty={faulty} sessions={i}/{n} compared_ops={chk.stats['compared_ops']} t={time.time()-chk.t0:.0f}s")
-    if not quick:
-        from sim import sweeps  # pylint: disable=import-outside-toplevel
+    from sim import sweeps  # pylint: disable=import-outside-toplevel
 
+    if len(chk.violations) < 5:
+        sweeps.detector_abort_sweep(chk, 3 if quick else 12, 6 if quick else 24)
+    if not quick:
         sweeps.pairwise_history(chk)
         sweeps.fault_site_sweep(chk)
     chk.write_evidence(rule=RULE_C14)
